@@ -87,8 +87,8 @@ Qed.
 
 Lemma copy_file_P sb sl name bh : P sb -> P (fst (fst (copy_file bstep lstep sb sl name bh))).
 Proof.
-  intros Hs. unfold copy_file.
-  destruct (l_exists lstep sl (path_dir name)) as [sl0 ex]. destruct ex as [ex|e]; [|exact Hs].
+  intros Hs. unfold copy_file. cbv zeta.
+  destruct (l_exists lstep sl (copy_dir name)) as [sl0 ex]. destruct ex as [ex|e]; [|exact Hs].
   match goal with |- P (fst (fst (match ?x with pair _ _ => _ end))) => destruct x as [sl1 mk] end.
   destruct mk; [exact Hs|].
   lcall. destruct rl; cbn [fst]; try assumption.
@@ -194,9 +194,13 @@ Proof.
   destruct o; cbn [cow_step];
     try (apply Hh; cbn [op_handle_of]; discriminate).
   - (* Create *) now apply cow_openfile_P.
-  - (* Mkdir *)
-    pose proof (b_is_dir_P sb p Hs) as Hd. destruct (b_is_dir bstep sb p) as [sb1 [[|]|er]]; cbn [fst] in Hd;
-      try lcall; done.
+  - (* Mkdir: (cow_mkdir_checks_union = 1) overlay Stat, then base Stat — a call ReadOnlyFs forwards —
+       then the overlay's MkdirAll; otherwise the old base IsDir probe.  Both branches are covered. *)
+    destruct (cow_mkdir_checks_union =? 1).
+    + lcall. destruct rl; try done;
+        (destruct (cow_is_not_exist _); [bcall; destruct rb|]; cbn iota; try lcall; done).
+    + pose proof (b_is_dir_P sb p Hs) as Hd. destruct (b_is_dir bstep sb p) as [sb1 [[|]|er]]; cbn [fst] in Hd;
+        try lcall; done.
   - (* MkdirAll *)
     pose proof (b_is_dir_P sb p Hs) as Hd. destruct (b_is_dir bstep sb p) as [sb1 [[|]|er]]; cbn [fst] in Hd;
       try lcall; done.
